@@ -16,6 +16,7 @@ fn main() {
             "c14" => gens::gen_c14(r),
             "c11" => gens::gen_c11(r),
             "c06" => gens::gen_c06(r),
+            "c05" => gens::gen_c05(r),
             "c10" => gens::gen_c10(r, false),
             "c10long" => gens::gen_c10(r, true),
             other => panic!("unknown generator {other}"),
